@@ -32,6 +32,8 @@ def run(prog, chk):
     plain_guards(prog, chk)
     evaluated_classes_are_split(prog, chk)
     unfiltered_output(prog, chk)
+    from props import strops
+    strops.check_for(prog, chk, "C20")  # A14.str-ops: how this property's strings are cut up is a reviewed, frozen inventory
 
 
 def gating(prog, chk):
